@@ -86,7 +86,7 @@ int engine_c15(RBuf &rq)
       printf("@@VAR %u kind=%d fill=%d\n", v, kind, W.heap_fill_mode);
       Memory *memory = new Memory();
       memory->endian = cpu_list[index].default_endian;
-      if (kind == 1)
+      if (kind == 1 || kind == 3)
       {
         for (size_t i = 0; i < hist.size(); i++) { memory->write8((uint32_t)i, (uint8_t)hist[i]); }
       }
@@ -99,9 +99,11 @@ int engine_c15(RBuf &rq)
       Simulate *sim = cpu_list[index].simulate_init(memory);
       sim->reset();
       sim->set_show(false);
-      if (kind == 1)
+      if (kind == 1 || kind == 3)
       {
-        // unrelated history on the same object, then back to the seeded state
+        // unrelated history on the same object, then back to the seeded state (kind 3: without reset(),
+        // only through the commands a user has: set <reg>=, set pc=, write - hidden state that is not
+        // part of what the user can see or set must not make the next step behave differently)
         sim->set_pc(0);
         sim->enable_step_mode();
         for (uint32_t i = 0; i < hist_steps; i++) { sim->run(-1, 1); }
@@ -128,7 +130,7 @@ int engine_c15(RBuf &rq)
         for (size_t w = 0; w < wins.size(); w++)
           for (size_t i = 0; i < wins[w].data.size(); i++)
             memory->write8(wins[w].addr + (uint32_t)i, (uint8_t)wins[w].data[i]);
-        sim->reset();
+        if (kind == 1) { sim->reset(); }
       }
       for (size_t i = 0; i < regs.size(); i++) { sim->set_reg(regs[i].first.c_str(), regs[i].second); }
       for (size_t i = 0; i < pushes.size(); i++) { sim->push(pushes[i]); }
